@@ -26,6 +26,8 @@
 #include <unistd.h>
 
 #define FD_LO 100
+#define LOW_N 4   /* descriptor numbers 0..3 are scenario descriptors too (the harness moves its own stdio away) */
+#define IN_RANGE(fd) (((fd) >= 0 && (fd) < LOW_N) || ((fd) >= FD_LO && (fd) < FD_HI))
 #define FD_HI 1000
 #define HIGH 2000
 #define MAXOBJ 4096
@@ -33,9 +35,11 @@
 #define EVMASK 0x201f
 
 struct obj {
-  int poll, fd, closing, clean, cbs;
+  int poll;   /* 1 uv_poll_t, 0 raw uv__io_t, 2 stream (uv_pipe_t opened on the descriptor) */
+  int fd, closing, clean, cbs;
   uv_poll_t p;
   uv__io_t io;
+  uv_pipe_t pipe;
 };
 static struct obj objs[MAXOBJ];
 static int nobj;
@@ -70,7 +74,7 @@ long syscall(long nr, ...) {
 int epoll_ctl(int epfd, int op, int fd, struct epoll_event* e) {
   long r = syscall(SYS_epoll_ctl, epfd, op, fd, e);
   int err = errno;
-  if (logging && epfd == loop.backend_fd && fd >= FD_LO && fd < FD_HI) {
+  if (logging && epfd == loop.backend_fd && IN_RANGE(fd)) {
     const char* n = op == EPOLL_CTL_ADD ? "ADD" : op == EPOLL_CTL_MOD ? "MOD" : "DEL";
     unsigned m = (op == EPOLL_CTL_DEL || e == NULL) ? 0 : e->events;
     printf("env epoll_ctl %s %d %u -> %d\n", n, fd, m, r == 0 ? 0 : -err);
@@ -103,7 +107,7 @@ static void print_interest(int epfd, int block) {
   if (f != NULL) {
     while (fgets(line, sizeof line, f)) {
       int tfd; unsigned ev;
-      if (sscanf(line, "tfd: %d events: %x", &tfd, &ev) == 2 && tfd >= FD_LO && tfd < FD_HI && n < 4096) {
+      if (sscanf(line, "tfd: %d events: %x", &tfd, &ev) == 2 && IN_RANGE(tfd) && n < 4096) {
         ent[n][0] = tfd; ent[n][1] = ev & ~(unsigned) (EPOLLERR | EPOLLHUP); n++;
       }
     }
@@ -157,11 +161,13 @@ int epoll_pwait(int epfd, struct epoll_event* ev, int maxev, int timeout, const 
 static int id_of_io(uv__io_t* w) {
   int i;
   for (i = 0; i < nobj; i++)
-    if (w == (objs[i].poll ? &objs[i].p.io_watcher : &objs[i].io)) return i;
+    if (w == (objs[i].poll == 1 ? &objs[i].p.io_watcher : objs[i].poll == 2 ? &objs[i].pipe.io_watcher : &objs[i].io)) return i;
   return -1;
 }
 
-static uv__io_t* io_of(struct obj* o) { return o->poll ? &o->p.io_watcher : &o->io; }
+static uv__io_t* io_of(struct obj* o) {
+  return o->poll == 1 ? &o->p.io_watcher : o->poll == 2 ? &o->pipe.io_watcher : &o->io;
+}
 
 static void obs(void) {
   struct uv__queue* q;
@@ -178,7 +184,7 @@ static void obs(void) {
     struct obj* o = &objs[i];
     if (o->closing) continue;
     printf("%s%d:%u:%u:%d", first ? "" : ",", i, io_of(o)->pevents & EVMASK, io_of(o)->events & EVMASK,
-           o->poll ? uv_is_active((uv_handle_t*) &o->p) : 0);
+           o->poll == 1 ? uv_is_active((uv_handle_t*) &o->p) : o->poll == 2 ? uv_is_active((uv_handle_t*) &o->pipe) : 0);
     first = 0;
   }
   printf("\n");
@@ -234,6 +240,19 @@ static void close_cb(uv_handle_t* h) {
 
 static void far_cb(uv_timer_t* t) { }
 
+static void alloc_cb(uv_handle_t* h, size_t sz, uv_buf_t* buf) {
+  static char b[65536];
+  buf->base = b; buf->len = sizeof b;
+}
+
+static void read_cb(uv_stream_t* s, ssize_t nread, const uv_buf_t* buf) {
+  struct obj* o = s->data;
+  int id = (int) (o - objs);
+  really(id, o->fd);
+  printf("cb read %d %d\n", id, nread < 0 ? (int) nread : nread > 0 ? 1 : 0);
+  run_script(id, o->cbs++);
+}
+
 static int mk_high(int fd) {
   int r;
   if (fd < 0) return -1;
@@ -271,7 +290,7 @@ static void peer_op(int what, int fd) {
   char buf[65536];
   int peer, i;
   uint64_t one = 1;
-  if (fd < FD_LO || fd >= FD_HI || !slots[fd].open) return;
+  if (!IN_RANGE(fd) || !slots[fd].open) return;
   peer = slots[fd].peer;
   memset(buf, 'x', sizeof buf);
   switch (what) {
@@ -323,7 +342,7 @@ static int fd_taken(int fd) {
   return 0;
 }
 
-static int fd_open(int fd) { return fd >= FD_LO && fd < FD_HI && slots[fd].open; }
+static int fd_open(int fd) { return IN_RANGE(fd) && slots[fd].open; }
 
 static struct obj* live(int id, int poll) {
   if (id < 0 || id >= nobj) return NULL;
@@ -384,7 +403,7 @@ static void do_op(char* line) {
   else printf("op %s %d %d\n", cmd, a, b);
 
   if (strcmp(cmd, "openfd") == 0 && n == 3) {
-    if (a < FD_LO || a >= FD_HI || slots[a].open || open_slot(a, b)) printf("refused\n");
+    if (!IN_RANGE(a) || slots[a].open || open_slot(a, b)) printf("refused\n");
     else printf("ret 0\n");
   } else if (strcmp(cmd, "closefd") == 0 && n == 2) {
     if (fd_open(a) && (fd_idle(a) || multi)) {
@@ -453,6 +472,44 @@ static void do_op(char* line) {
   } else if (strcmp(cmd, "iofeed") == 0 && n == 2) {
     if ((o = live(a, 0)) != NULL) { uv__io_feed(&loop, &o->io); printf("ret 0\n"); }
     else printf("refused\n");
+  } else if (strcmp(cmd, "sinit") == 0 && n == 2) {
+    /* a stream-type handle: uv_pipe_t opened on the descriptor */
+    if (nobj < MAXOBJ - 1 && fd_open(a) && !(fd_taken(a) && !uv__fd_exists(&loop, a))) {
+      int r;
+      o = &objs[nobj];
+      memset(o, 0, sizeof *o);
+      uv_pipe_init(&loop, &o->pipe, 0);
+      r = uv_pipe_open(&o->pipe, a);
+      if (r == 0) {
+        o->poll = 2; o->fd = a; o->clean = 1; o->pipe.data = o;
+        printf("new %d\n", nobj++);
+      } else {
+        uv_close((uv_handle_t*) &o->pipe, NULL);
+        /* the slot's memory must outlive the close: skip it */
+        o->poll = 2; o->fd = -1; o->closing = 1;
+        nobj++;
+        printf("ret %d\n", r);
+      }
+    } else printf("refused\n");
+  } else if (strcmp(cmd, "sstart") == 0 && n == 2) {
+    if ((o = live(a, 2)) != NULL && fd_open(o->fd)) {
+      int r = uv_read_start((uv_stream_t*) &o->pipe, alloc_cb, read_cb);
+      if (r == 0) o->clean = 0;
+      printf("ret %d\n", r);
+    } else printf("refused\n");
+  } else if (strcmp(cmd, "sstop") == 0 && n == 2) {
+    if ((o = live(a, 2)) != NULL) printf("ret %d\n", uv_read_stop((uv_stream_t*) &o->pipe));
+    else printf("refused\n");
+  } else if (strcmp(cmd, "sclose") == 0 && n == 2) {
+    if ((o = live(a, 2)) != NULL) {
+      uv_close((uv_handle_t*) &o->pipe, close_cb);
+      o->closing = 1;
+      if (o->fd > 2 && slots[o->fd].open) {   /* uv__stream_close closed the descriptor itself */
+        if (slots[o->fd].peer >= 0) close(slots[o->fd].peer);
+        slots[o->fd].open = 0; slots[o->fd].peer = -1;
+      }
+      printf("ret 0\n");
+    } else printf("refused\n");
   } else {
     printf("bad-op\n");
     return;
@@ -463,7 +520,15 @@ static void do_op(char* line) {
 int main(void) {
   static char line[1 << 20];
   struct rlimit rl;
-  int ring = 1, started = 0;
+  int ring = 1, started = 0, i, nul;
+  /* free descriptor numbers 0..3 for the scenario: protocol I/O moves to high descriptors; the numbers
+   * stay occupied by /dev/null until libuv has created its own descriptors */
+  stdin = fdopen(fcntl(0, F_DUPFD, 1900), "r");
+  stdout = fdopen(fcntl(1, F_DUPFD, 1900), "w");
+  stderr = fdopen(fcntl(2, F_DUPFD, 1900), "w");
+  nul = open("/dev/null", O_RDWR);
+  for (i = 0; i < LOW_N; i++) if (nul != i) dup2(nul, i);
+  if (nul >= LOW_N) close(nul);
   setvbuf(stdout, NULL, _IOFBF, 1 << 16);
   signal(SIGPIPE, SIG_IGN);
   if (getrlimit(RLIMIT_NOFILE, &rl) == 0) { rl.rlim_cur = rl.rlim_max < 65536 ? rl.rlim_max : 65536; setrlimit(RLIMIT_NOFILE, &rl); }
@@ -481,6 +546,7 @@ int main(void) {
       uv_timer_init(&loop, &far_timer);
       uv_timer_start(&far_timer, far_cb, 1000000000, 0);
       uv_run(&loop, UV_RUN_NOWAIT);   /* registers libuv's own wakeup watcher */
+      for (i = 0; i < LOW_N; i++) close(i);
       started = 1;
       logging = 1;
       printf("cfg ring=%d internal=%u nw=%u multi=%d\n", ((uv__loop_internal_fields_t*) loop.internal_fields)->ctl.ringfd != -1,
